@@ -91,7 +91,42 @@ pub fn c01(ctx: &Ctx) {
     ctx.par_range("corpus-extremes", ex.len() as u64, |i, l| c01_one(ex[i as usize].0, &[], Some(ex[i as usize].1), l));
 }
 
-pub fn c02(_ctx: &Ctx) {}
+// ------------------------------------------------------------------ C02: real types against the reference encoder
+
+/// What a real type hands to serde (recorded call tree), encoded by the reference encoder, must
+/// be byte-identical to what postcard emits for it.
+fn c02_one(ti: usize, data: &[u8], extreme: Option<usize>, l: &mut Local) -> CaseResult {
+    let t = &types()[ti];
+    let Some(schema) = owned_schema(t) else { return Ok(()) };
+    let Some(shape) = dynmap::tree_to_shape(&schematree::from_owned(&schema)) else { return Ok(()) };
+    let Some(v) = value(t, data, extreme, false) else { return Ok(()) };
+    let c = || cj(t, data, extreme, "C02");
+    let Ok(call) = v.call() else { return Ok(()) };
+    // conformance of the call tree to the schema is C14's business; skip what does not fit
+    let Ok(val) = crate::record::call_to_value(&call, &shape) else { return Ok(()) };
+    let Ok(want) = ref_encode(&shape, &val) else { return Ok(()) };
+    l.eval();
+    let got = no_panic(|| v.bytes()).map_err(|p| fail("corpus-wire", format!("{}: to_allocvec panicked: {}", t.name, p), c()))?;
+    if got.as_ref() != Ok(&want.bytes) {
+        return Err(fail(
+            "corpus-wire",
+            format!("{}: {} encodes to {:?} but the wire format prescribes {} for the data-model items it serialises as", t.name, v.dbg(), got.map(|b| hex(&b)), hex(&want.bytes)),
+            c(),
+        ));
+    }
+    if want.has_header || want.has_float || want.varint_spans.iter().any(|s| s.1 > 1) {
+        l.nontrivial(&(t.name.as_str(), &want.bytes, 2u8));
+    }
+    l.class("corpus-type-wire");
+    Ok(())
+}
+
+pub fn c02(ctx: &Ctx) {
+    let n = ctx.tier.pick(600_000, 6_000_000);
+    ctx.par_proptest("corpus-types", n, || arb_case(|t| t.schema.is_some()), |(ti, d), l| c02_one(*ti, d, None, l));
+    let ex = all_extremes(|t| t.schema.is_some());
+    ctx.par_range("corpus-extremes", ex.len() as u64, |i, l| c02_one(ex[i as usize].0, &[], Some(ex[i as usize].1), l));
+}
 
 // ------------------------------------------------------------------ C03 / C04: decode differential for real types
 
@@ -483,6 +518,7 @@ pub fn replay_corpus(case: &Json, l: &mut Local) -> Option<CaseResult> {
     let ex = case["extreme"].as_u64().map(|e| e as usize);
     Some(match prop {
         "C01" => c01_one(ti, &data, ex, l),
+        "C02" => c02_one(ti, &data, ex, l),
         "C03" => c03_one(ti, &data, l),
         "C12" => c12_replay(case, l),
         "C14" => c14_one(ti, &data, ex, l),
